@@ -9,7 +9,8 @@ import random
 ID = "C15"
 LEVEL = "fault_enumeration"
 BUDGET = {"quick": 55, "thorough": 900}
-FLOOR = {"quick": 200, "thorough": 3000}
+QUICK_CASES = 2000  # generator items in the quick tier (fixed amount of work; BUDGET is then only a safety cap)
+FLOOR = {"quick": 600, "thorough": 3000}
 TIMEOUT = 90
 REQUIRED_OBS = ["waits", "returns_checked", "returned_state", "returned_event", "returned_time", "returned_timeout", "returned_none", "condition_exceptions", "cancel_points_injected", "residue_comparisons", "mqtt_webhook_waits"]
 RULE = (
